@@ -5,7 +5,8 @@ multi-byte characters), history (list), history PATTERN (5 patterns), history -p
 split into shell processes (each operation in the same or in a new process) and three working-directory names
 (plain, with a quote, with a percent sign) on one database file that the shell itself creates (one interactive start
 on a pseudo-terminal). The rows are read back with an independent sqlite client. Interactive layer: all sequences of
-up to 3 typed lines over {command, the same with a leading blank, another command, exact repeat} with
+up to 3 typed lines over {command, the same with a leading blank, another command, exact repeat} (up to 2, thorough 3,
+also over commands that match one another as LIKE patterns or differ only in case) with
 HISTORY_DELETE_DUPS 0 and 1. Oracle: reference row list (text byte-equal, submission order, leading-blank lines and
 immediate repeats absent, delete removes exactly the named row, no operation errors out or loses rows)."""
 import itertools
@@ -273,9 +274,11 @@ def run(rep, tier):
     rep.bounds.append({'layer': 'rows from several directories with names matching one another as LIKE patterns; history -p per directory', 'histories': len(xjobs), 'complete': True})
     # interactive layer
     typed = ['vh-mark a 0', ' vh-mark a 0', 'vh-mark b 0']
+    # texts that match one another as SQL LIKE patterns or differ only in case: they are different commands
+    typed_like = ['vh-mark a_c 0', 'vh-mark abc 0', 'vh-mark ABC 0', 'vh-mark a%c 0']
     tjobs = []
     for n in range(1, 4):
-        for seq in itertools.product(typed, repeat=n):
+        for seq in itertools.product(typed + typed_like if (n <= 2 or tier == 'thorough') else typed, repeat=n):
             for dups in ('0', '1'):
                 tjobs.append((seq, dups))
     for (seq, dups), res in common.pmap(run_typed, tjobs, chunk=2):
